@@ -4,6 +4,8 @@ import numpy as np
 from .. import tlc, cases, lm
 from ..core import time_limit
 
+import itertools as _it
+_AFTER_GROUP = _it.count()
 OPS = ["select", "delete", "insert", "adjoin", "concat", "reorder", "sort", "group", "ungroup", "lexsort"]
 
 
@@ -120,9 +122,14 @@ def run_history(ctx, clsname, presence, rng, nsteps, out, hid):
         ctx.violation("%s.__init__:exception" % clsname, "%s: %s" % (type(e).__name__, e), {"ax": ax0, "presence": presence})
         return
     retained = []
+    forced = None
     for step in range(nsteps):
         a = rng.choice(axes)
         op = rng.choice(OPS)
+        if forced is not None:
+            # a matrix that has just been grouped along an axis is next EDITED along that axis (adjoin / insert / delete and their in-place
+            # counterparts append / incorp / remove): whatever grouping it reports afterwards must be true of the edited matrix
+            a, op = forced; forced = None
         pre = lm.project(cur, kind)
         n = len(pre["ax"][a])
         if n == 0 or -1 in pre["ax"][a] or not pre["ok"]["cells"]:
@@ -209,6 +216,8 @@ def run_history(ctx, clsname, presence, rng, nsteps, out, hid):
                     retained.append((cur, lm.project(cur, kind), "%s(form=%s)" % (op + "_" + a, form), step))
                     del retained[:-3]
                 cur = nxt
+                if op == "group" and a != "trait":
+                    forced = (a, ("adjoin", "insert", "delete")[next(_AFTER_GROUP) % 3])
             else:
                 cur = backup   # the result left the model's state space (a reported/known defect): continue from the old state
         # earlier objects must not have been changed by operations on objects derived from them
